@@ -26,12 +26,21 @@ CLAIMED = {
     "C07": dict(technique=SEQ + "; oracle: simulated kernel's descriptor table plus close(2) interposer",
                 text="All histories of descriptor-creating operations (open, socket, accept, multishot accept, pipe, to_direct; regular and direct), drops of the futures, of the returned AsyncFds (queue full and not full), AsyncFd::close, and standard stream handles; at the end every descriptor the kernel issued must have been closed exactly once in the way matching its kind, and fds 0-2 never.",
                 ref="6/C07"),
+    "C08": dict(technique=SEQ + " plus " + SCH + "; oracle: multiset conservation of pool buffer ids across kernel ring / pending completions / live ReadBufs",
+                text="Sequential: all histories of single-shot and multishot pool reads/receives, completions with and without buffers, -ENOBUFS, drops of operations in flight, and drops of the handed-out ReadBufs for pool sizes 1,2,4, buffer sizes 1 and 8, with the 16-bit ring tail starting at 0 and just below 2^16 (wrap inside the history); after every action the buffer ids offered in the kernel's ring, selected for undelivered completions and owned by live ReadBufs must partition the pool, ring entries must describe their buffer, and ReadBuf contents must be what the kernel wrote. Threads: 2-3 threads dropping ReadBufs concurrently (optionally while the kernel keeps selecting buffers), all schedules up to the preemption bound.",
+                ref="6/C08", engine="seqx+schx"),
     "C09": dict(technique=SEQ + " over fault sequences (EINTR/ECANCELED)^k followed by every final outcome",
                 text="For each of ~45 operation shapes: every sequence of EINTR/ECANCELED completions followed by every final outcome; the re-issued submission must be byte-identical (same user_data, same addresses), the caller must observe only the last attempt's result (reference model), and no cancel request may be emitted.",
                 ref="6/C09"),
+    "C10": dict(technique="explicit-state exploration over every sequence of kernel answers (short transfer sizes incl. 0) for each composite I/O case on the real code (seqx); byte-stream reference oracle",
+                text="For write_all/write_all_vectored/send_all/send_all_vectored (plain, extract, positional, flags, zero-copy) over every buffer shape with 1-3 (thorough 1-4, plus 5 and 8) buffers of length 0-2 (0-3) incl. empty buffers in every position, and for read_n/read_n_vectored/recv_n/recv_n_vectored over Vec, pre-filled Vec, LimitedBuf and pool ReadBuf targets and every n: every sequence of accepted/delivered counts the kernel may answer is executed; each request must offer exactly the bytes not yet written at the right offset with the caller's flags and opcode, success only after everything, WriteZero/UnexpectedEof exactly when the kernel answers 0.",
+                ref="6/C10"),
     "C11": dict(technique=SCH + "; oracle: a poller blocked in the kernel forever after a completed wake() = lost wake-up",
                 text="Poller thread (poll(None), poll(0);poll(None), poll(None);poll(None), with or without completions already published) and 1-2 waker threads on default, kernel-thread, single-issuer and defer-taskrun rings, all schedules up to the preemption bound including the sq-thread going idle; wake() after the Ring is dropped.",
                 ref="6/C11", engine="schx"),
+    "C12": dict(technique="explicit-state exploration of every drop order of the objects of each scenario on the real code (seqx); oracles: mmap/munmap/close interposer, simulated kernel descriptor table, tracking allocator",
+                text="~80 scenarios (operations not started / queued / in flight / abandoned / finished-unpolled / mid-stream, queue clone, regular and direct AsyncFd, pool, owned and unassigned ReadBuf; kernel cancelling everything, failing to cancel, cancelling nothing) x every permutation of dropping those objects that safe Rust admits; checked: no panic/crash, no use of freed memory, the three ring mappings unmapped exactly once with their original lengths before the ring fd is closed, queued clean-up requests submitted, every descriptor closed once, no allocation left.",
+                ref="6/C12"),
 }
 NOT_APPLICABLE = {}
 ALL = [f"C{i:02d}" for i in range(1, 19)]
